@@ -104,7 +104,7 @@ func strmSchedCoq(s []int) string {
 
 // strmEvent mirrors Coq's `event`.
 type strmEvent struct {
-	K string `json:"k"` // idle tau unit write read readall chunk writeto in readfrom stats dt setdt
+	K string `json:"k"` // idle tau unit write read readall chunk writeto in readfrom stats dt setdt panic hang
 	B string `json:"b,omitempty"`
 	N uint64 `json:"n,omitempty"`
 	M uint64 `json:"m,omitempty"`
@@ -142,6 +142,8 @@ func (e strmEvent) coq() string {
 		return coqlit.App("EvSetDT", b)
 	case "panic":
 		return "EvPanic"
+	case "hang":
+		return "EvHang"
 	}
 	die("bad event kind %q", e.K)
 	return ""
@@ -346,6 +348,13 @@ func strmSnapOf(s *streams.Stdin) (strmSnap, []byte) {
 
 var strmMu sync.Mutex
 
+// deadlines of a controlled case: one release, and the whole case (generous: a
+// release normally takes microseconds)
+const (
+	strmStepDeadline = 10 * time.Second
+	strmCaseDeadline = 30 * time.Second
+)
+
 // strmRunCtl executes a controlled case on a fresh streams.Stdin.
 func strmRunCtl(c strmCtlCase) strmCtlObs {
 	strmMu.Lock()
@@ -372,9 +381,26 @@ func strmRunCtl(c strmCtlCase) strmCtlObs {
 				die("scheduler: message from thread %d while %d runs", m.tid, t.id)
 			}
 			return true
-		case <-time.After(10 * time.Second):
+		case <-time.After(strmStepDeadline):
 			return false
 		}
+	}
+	// hang: the released thread did not reach its next yield point (a loop of the
+	// code under test without a yield point, or a lock that is never released), or
+	// the whole case exceeded its deadline. Recorded as an explicit EvHang step that
+	// both agree and spec_ok reject; the goroutines are abandoned (the context is
+	// cancelled so that every loop of Stdin that polls it ends).
+	start := time.Now()
+	hang := func(pt int) strmCtlObs {
+		st := strmStep{Pt: pt, Ev: strmEvent{K: "hang"}}
+		s.ForceClose()
+		st.Sn, _ = strmSnapOf(s)
+		if st.Sn.Len < 0 {
+			st.Sn.Len = 0
+		}
+		obs.Steps = append(obs.Steps, st)
+		obs.Hang = true
+		return obs
 	}
 	for i, p := range c.Progs {
 		t := &strmThread{id: i, prog: p, resume: make(chan struct{}), exited: make(chan struct{}), sc: sc}
@@ -382,8 +408,7 @@ func strmRunCtl(c strmCtlCase) strmCtlObs {
 		sc.cur = t
 		go t.run()
 		if !wait(t) {
-			obs.Hang = true
-			return obs
+			return hang(0)
 		}
 		sc.cur = nil
 	}
@@ -396,6 +421,9 @@ func strmRunCtl(c strmCtlCase) strmCtlObs {
 			t := sc.threads[i]
 			pt := t.at
 			st.Pt = strmPoints[pt]
+			if time.Since(start) > strmCaseDeadline {
+				return hang(st.Pt)
+			}
 			if pt != "begin" && last >= 0 && last != i {
 				obs.Interleaved = true
 			}
@@ -406,8 +434,7 @@ func strmRunCtl(c strmCtlCase) strmCtlObs {
 			ok := wait(t)
 			sc.cur = nil
 			if !ok {
-				obs.Hang = true
-				return obs
+				return hang(st.Pt)
 			}
 			switch {
 			case t.ev != nil:
